@@ -60,7 +60,7 @@ func cacheJob(name string, limit int, jit string, thorough bool) *job {
 	if nkeys < 2 {
 		nkeys = 2
 	}
-	depth := map[int]int{0: 5, 1: 6, 2: 5, 3: 5}[limit]
+	depth := map[int]int{0: 6, 1: 6, 2: 5, 3: 5}[limit]
 	if thorough {
 		depth = map[int]int{0: 7, 1: 7, 2: 6, 3: 6}[limit]
 	}
